@@ -18,9 +18,9 @@ import (
 func init() {
 	core.Register(&core.Spec{
 		ID: "C08", Level: "fault_enumeration",
-		Rule: "the case list is the product statement kind {INSERT values, INSERT select, UPDATE, multi-table UPDATE, DELETE, REPLACE values, REPLACE select, CREATE TABLE AS, ALTER ADD DEFAULT, UPDATE with a user function} x failure kind {integer division by zero in row k, wrong row length in the k-th VALUES row, sub-query returning two rows from row k on, user function TRIGGERing ERROR at its k-th call, ambiguous joined update, unknown field, context cancellation at the k-th worker-hook hit, context cancellation at the N-th poll of the context (first, second, middle and the last polls of the statement)} x k in {first, second, middle, last-1, last} x table state {never loaded, loaded by SELECT, loaded FOR UPDATE, already dirty, temporary table} x size {5, 200 rows with --cpu 4}, walked completely (invalid combinations are skipped). " +
+		Rule: "the case list is the product statement kind {INSERT values, INSERT select, UPDATE, multi-table UPDATE, DELETE, REPLACE values, REPLACE select, CREATE TABLE AS, ALTER ADD DEFAULT, UPDATE with a user function} x failure kind {integer division by zero in row k, wrong row length in the k-th VALUES row, sub-query returning two rows from row k on, user function TRIGGERing ERROR at its k-th call, ambiguous joined update, unknown field, context cancellation at the k-th worker-hook hit, context cancellation at the N-th poll of the context (first, second, middle and the last polls of the statement)} x k in {first, second, middle, last-1, last} x table state {never loaded, loaded by SELECT, loaded by SELECT under import attributes of its own, loaded FOR UPDATE, already dirty, temporary table} x size {5, 200 rows with --cpu 4}, walked completely (invalid combinations are skipped). " +
 			"Each case runs in one real in-process transaction: snapshot (typed SELECT * of every table + directory listing), the failing statement (must return an error, else the case is trivial), SELECT * again == snapshot, no new file or control file, then COMMIT and reload from disk in a fresh session == snapshot (bytes identical when nothing had been changed before). non-trivial = the statement really failed; distinct = the combination.",
-		Quick: 4000, Thorough: 120000, FloorQuick: 500, FloorThorough: 15000, Exhaustive: true,
+		Quick: 4800, Thorough: 144000, FloorQuick: 500, FloorThorough: 15000, Exhaustive: true,
 		Assumptions: []string{"cancellation is injected through the worker hook (cancel the statement's context at the k-th hit) and through a context that cancels itself at its N-th poll; other failures are produced by the data", "thorough = the same product at thirty seeds (table contents differ)"},
 		Setup:       func(w *core.Worker) { core.HermeticProcess(w.Work) },
 		Fn:          c08Case,
@@ -31,7 +31,7 @@ var (
 	c08Stmts  = []string{"insert-values", "insert-select", "update", "update-multi", "delete", "replace-values", "replace-select", "create-as", "alter-add", "update-udf"}
 	c08Fails  = []string{"divzero", "rowlen", "subquery2", "udf-trigger", "ambiguous", "unknown-field", "cancel", "cancel-poll"}
 	c08Ks     = []string{"first", "second", "middle", "last-1", "last"}
-	c08States = []string{"unloaded", "selected", "for-update", "dirty", "temp"}
+	c08States = []string{"unloaded", "selected", "for-update", "dirty", "temp", "selected-noheader"}
 	c08Sizes  = []int{5, 200}
 )
 
@@ -199,11 +199,16 @@ func c08Case(w *core.Worker, i int) {
 			valid, sql = true, fmt.Sprintf("ALTER TABLE %s ADD (x, c1);", tn) // a column of that name exists
 		}
 		// ALTER TABLE .. SET <attribute> rejected for a JSON / CSV table: the attribute must not stick
-		if fail == "rowlen" && state != "temp" {
+		if fail == "rowlen" && state != "temp" && state != "selected-noheader" {
 			valid, setAttr = true, true
 			sql = []string{"ALTER TABLE j SET ENCODING TO 'UTF16';", "ALTER TABLE j SET ENCODING TO 'SJIS';", "ALTER TABLE j SET FORMAT TO 'NOSUCH';", "ALTER TABLE j SET LINE_BREAK TO 'XX';", "ALTER TABLE j SET JSON_ESCAPE TO 'NOSUCH';",
 				"ALTER TABLE t SET DELIMITER TO 'ab';", "ALTER TABLE t SET ENCODING TO 'NOSUCH';", "ALTER TABLE t SET HEADER TO 'maybe';", "ALTER TABLE t SET ENCLOSE_ALL TO 3;", "ALTER TABLE t SET DELIMITER_POSITIONS TO 'x';"}[(k+size)%10]
 		}
+	}
+	if state == "selected-noheader" && fail == "cancel" {
+		// a cancellation may strike inside the re-load that upgrades the table's lock; a failed upgrade leaves no cached copy, and
+		// the next plain read loads the file under the default attributes — the region the manual leaves open (see C20)
+		valid = false
 	}
 	if !valid || k < 1 || k > size {
 		w.Case(combo+"#"+strconv.Itoa(round), false)
@@ -247,6 +252,10 @@ func c08Case(w *core.Worker, i int) {
 	switch state {
 	case "selected":
 		run("SELECT COUNT(*) FROM t;")
+	case "selected-noheader":
+		// read before under attributes of its own (no header line: the header is a record, the columns are c1, c2, c3): the
+		// failing statement names the table plainly and must leave that reading of it alone
+		run("SELECT COUNT(*) FROM CSV(',', `t.csv`, 'UTF8', TRUE);")
 	case "for-update":
 		run("SELECT COUNT(*) FROM t FOR UPDATE;")
 	case "dirty":
